@@ -56,9 +56,27 @@ def run(pid, tier, seed):
         mod, tp, inv, st, consts = j
         return vlib.validate_trace_resync(mod, tp, inv, pid + mod, 4, st, consts, 3000)
 
+    # binding A: every generative factory called twice in a row with the same operands (TLC enumerates the calls): two nodes,
+    # the first unchanged
+    twins = {"Use": "<- TwinFactories", "MaxLinks": 0, "Record": "TRUE", "Mode": '"twins"'}
     with ThreadPoolExecutor(max_workers=8) as ex:
+        tw = ex.submit(vlib.generate_and_replay, "IprMakeMC", pid + "-twins", twins, mk, ("replay",), ["TableSane"], (), 4, 3000, "6g")
         res = list(ex.map(val, jobs))
+        tw = tw.result()
     violations, samples = [], []
+    if tw["summary"]["behaviours"] == 0:
+        raise vlib.ModelFailure("no twin behaviour generated")
+    seen_tw = set()
+    for f in tw["fails"]:
+        k2 = "twin:%s" % f["beh"][0]["f"]
+        if k2 in seen_tw:
+            continue
+        seen_tw.add(k2)
+        path = vlib.save_replay(pid, "%s.ndjson" % k2.replace(":", "-"), "\n".join(json.dumps(e) for e in f["beh"]) + "\n")
+        violations.append((k2, "%s called twice in a row with %s: specification expects two nodes of their own (%s), the library gave %s" % (
+            f["beh"][0]["f"], f["beh"][0]["a"], json.dumps(f.get("expected"))[:200], json.dumps(f.get("got"))[:200]), path))
+    if tw["crash"]:
+        violations.append(("twin:crash", "library crashed on a twin call", vlib.save_replay(pid, "twin-crash.ndjson", tw["crash"]["beh"])))
     states = transitions = lines = execs = rej = stable_reports = 0
     seen = set()
     for (mod, tp, _, _, _), r in zip(jobs, res):
@@ -90,7 +108,8 @@ def run(pid, tier, seed):
     head = open(jobs[0][1]).read().splitlines()
     samples.append({"kind": "make history with stability reports", "events": [json.loads(x) for x in head[1:4]]})
     cov = {
-        "states": states, "transitions": transitions, "traces_validated_against_impl": execs - rej,
+        "states": states + tw["tlc"].distinct, "transitions": transitions + tw["tlc"].generated,
+        "traces_validated_against_impl": execs - rej + tw["summary"]["behaviours"] - tw["summary"]["failed"], "twin_calls": tw["summary"]["behaviours"],
         "evaluations": lines, "distinct_nontrivial": stable_reports,
         "rule": "histories of %d calls over all 161 generative factories with unrelated growth (identifiers, qualified pointer "
                 "types, declarations, phantoms, statements, sub-regions, words of 200..3200 bytes) between two steps; after every "
